@@ -2,6 +2,8 @@ package genwl
 
 import (
 	"fmt"
+	"os"
+	"time"
 
 	"google.golang.org/protobuf/reflect/protoreflect"
 	"google.golang.org/protobuf/types/dynamicpb"
@@ -29,6 +31,13 @@ func stripUnknown(m protoreflect.Message, depth int) {
 		return true
 	})
 }
+
+// shrinking is expensive; the same (flavour, variant, failure) is shrunk only a bounded number of times per
+// process, later occurrences are counted under the signature already derived
+var (
+	shrinkBudget = map[string]int{}
+	shrinkSig    = map[string]string{}
+)
 
 type c06Outcome struct {
 	fail  string // "", "harness", "generator", "rejected", "panic:...", "diff", "dest-dependent"
@@ -144,6 +153,10 @@ func runC0607(cfg *config, res *monitor.Result) {
 	classes := map[string]int64{}
 	var evals, genErrs int64
 	for _, t := range cfg.targets(true) {
+		t0 := time.Now()
+		if os.Getenv("VERIF_TIMING") != "" {
+			defer func(t target) { fmt.Fprintf(os.Stderr, "timing %s %s %v\n", t.pkg.GoPkg, t.md.Name(), time.Since(t0)) }(t)
+		}
 		g := cfg.gen(t)
 		cases := g.Boundary(t.md)
 		if len(cases) > 3*ncase && !cfg.thorough() {
@@ -185,10 +198,20 @@ func runC0607(cfg *config, res *monitor.Result) {
 					seen := map[string]bool{}
 					for _, it := range o.items {
 						k := it.String()
+						if it.InWKT && t.pkg.Flavour == "gogo" {
+							continue // decoded/encoded by gogo's own code for its well-known types
+						}
 						if seen[k] {
 							continue
 						}
 						seen[k] = true
+						budgetKey := sigFlav(t) + "/" + v.family + "/" + k
+						if shrinkBudget[budgetKey] >= 2 {
+							// the same (flavour, variant, item) was already shrunk and reported twice in this process: count it
+							res.Violate(shrinkSig[budgetKey], "", nil)
+							continue
+						}
+						shrinkBudget[budgetKey]++
 						min := shrink(c.Msg, k, func(m *dynamicpb.Message) string {
 							oo := c06Check(cfg, t, m, v, seedKey, c07)
 							for _, x := range oo.items {
@@ -208,7 +231,8 @@ func runC0607(cfg *config, res *monitor.Result) {
 								}
 							}
 						}
-						sig := fmt.Sprintf("%s:%s:%s:%s", cfg.prop, t.pkg.Flavour, fam, k)
+						sig := fmt.Sprintf("%s:%s:%s:%s", cfg.prop, sigFlav(t), fam, k)
+						shrinkSig[budgetKey] = sig
 						w := witness(t, min, c)
 						oo := c06Check(cfg, t, min, v, seedKey, c07)
 						w["variant"] = v.family
@@ -222,6 +246,12 @@ func runC0607(cfg *config, res *monitor.Result) {
 						res.Violate(sig, what, w)
 					}
 				default:
+					budgetKey := sigFlav(t) + "/" + v.family + "/" + o.fail + "/" + shapesKey(c.Msg)
+					if shrinkBudget[budgetKey] >= 1 {
+						res.Violate(shrinkSig[budgetKey], "", nil)
+						continue
+					}
+					shrinkBudget[budgetKey]++
 					min := shrink(c.Msg, o.fail, func(m *dynamicpb.Message) string { return c06Check(cfg, t, m, v, seedKey, c07).fail })
 					fam := v.family
 					if fam != "canonical" {
@@ -229,7 +259,8 @@ func runC0607(cfg *config, res *monitor.Result) {
 							fam = "canonical"
 						}
 					}
-					sig := fmt.Sprintf("%s:%s:%s:%s:%s", cfg.prop, t.pkg.Flavour, fam, o.fail, shapesKey(min))
+					sig := fmt.Sprintf("%s:%s:%s:%s:%s", cfg.prop, sigFlav(t), fam, o.fail, shapesKey(min))
+					shrinkSig[budgetKey] = sig
 					w := witness(t, min, c)
 					oo := c06Check(cfg, t, min, v, seedKey, c07)
 					w["variant"] = v.family
